@@ -78,6 +78,9 @@ def main():
         saved[p] = p.read_text()
     try:
         for m in sel:
+            if m.get("skip_reason") and not a.ids:
+                print(f"{m['id']:34s} EQUIV/OUT-OF-DOMAIN  {m['skip_reason'][:120]}")
+                continue
             r = run_one(m, a.tier)
             if r[1] == "STALE":
                 print(f"{r[0]:34s} STALE  {r[3]}")
